@@ -114,7 +114,13 @@ func (ex *Exec) vcall(th *Thread, caller *Frame, name string, args []Value, fini
 		}
 		finish(nil)
 	case "vAssert":
-		ex.require(args[0].(*Term), "assert", ex.strArg(args[1]))
+		if t := args[0].(*Term); t.IsTrue() {
+			// decided by the path itself (all inputs of this path satisfy it)
+			ex.obligations++
+			ex.discharged++
+		} else {
+			ex.require(t, "assert", ex.strArg(args[1]))
+		}
 		finish(nil)
 	case "vAssertEqBytes", "vAssertEqString":
 		sa, la := ex.byteSeqOf(args[0])
